@@ -3,6 +3,7 @@
 A history of public operations followed by a final query runs in a forked pristine process; the
 answer of the final query is compared with the answer of a sibling fork that runs the query alone."""
 import gc
+import json
 import sys
 import types
 import warnings
@@ -37,7 +38,9 @@ ASSUMPTIONS = [
 
 # ------------------------------------------------------------------ DSL
 LEAVES = [['int'], ['str'], ['float'], ['dyn', 'Dyn', 'v1'], ['dyn', 'Dyn', 'v2'], ['dyn', 'Dyn', 'v3'], ['dyn', 'Other', 'v1'],
-          ['lit', 1], ['lit', True], ['lit', 0], ['lit', False], ['lit', 'a'], ['fwd', 'Late'], ['fwd', 'Never']]
+          ['lit', 1], ['lit', True], ['lit', 0], ['lit', False], ['lit', 'a'], ['fwd', 'Late'], ['fwd', 'Never'],
+          # a PEP 695 alias whose value names Late without quotes: evaluating it fails until Late exists and must work afterwards
+          ['alias695']]
 VALUES = [['i', 1], ['i', 0], ['b', True], ['b', False], ['s', 'a'], ['f', 1.0], ['n'], ['inst', 'Dyn', 'v1'], ['inst', 'Dyn', 'v2'],
           ['inst', 'Dyn', 'v3'], ['inst', 'Other', 'v1']]
 
@@ -80,7 +83,7 @@ def focused_query(draw):
     built to match either the named leaf or its look-alike."""
     pairs = [(['dyn', 'Dyn', 'v1'], ['inst', 'Dyn', 'v1']), (['dyn', 'Dyn', 'v2'], ['inst', 'Dyn', 'v2']), (['dyn', 'Dyn', 'v3'], ['inst', 'Dyn', 'v3']),
              (['lit', 1], ['i', 1]), (['lit', True], ['b', True]), (['lit', 0], ['i', 0]), (['lit', False], ['b', False]),
-             (['fwd', 'Late'], ['inst', 'Late', 'v1'])]
+             (['fwd', 'Late'], ['inst', 'Late', 'v1']), (['alias695'], ['list', [['inst', 'Late', 'v1']]]), (['alias695'], ['n'])]
     leaf, good = draw(st.sampled_from(pairs))
     _l2, other = draw(st.sampled_from(pairs))
     val = draw(st.sampled_from([good, good, other]))
@@ -140,9 +143,11 @@ def _case(draw, tier):
         # rebinding chain: a forward-referenced name is unbound / bound to a non-hint placeholder / bound to its class, in a drawn
         # order, while one and the same wrapper (and the door) is asked in between; the last binding decides the reference answer
         w = draw(st.sampled_from(['bare', 'list', 'opt', 'dict', 'tuple']))
-        leaf = ['fwd', 'Late']
+        leaf = draw(st.sampled_from([['alias695'], ['fwd', 'Late'], ['fwd', 'Late']]))
         hint = {'bare': leaf, 'list': ['list', leaf], 'opt': ['opt', leaf], 'dict': ['dict', leaf], 'tuple': ['tuple', leaf]}[w]
         val = draw(st.sampled_from([['inst', 'Late', 'v1'], ['inst', 'Late', 'v1'], ['i', 1]]))
+        if leaf == ['alias695']:
+            val = draw(st.sampled_from([['list', [['inst', 'Late', 'v1']]], ['n'], ['list', [['i', 1]]]]))
         value = {'list': ['list', [val]], 'dict': ['dictv', val], 'tuple': ['tuple', [val]]}.get(w, val)
         q = [draw(st.sampled_from(['call', 'call', 'is_bearable', 'die'])), hint, value]
         hist = []
@@ -179,7 +184,12 @@ def _monotone(case):
     later rebinding to a placeholder is outside what 'the same query in a fresh process' can judge."""
     good = False
     hist = []
+    # (a PEP 695 alias caches its value itself - in CPython, not in beartype - once it evaluates without error, which it does
+    # for a placeholder binding too: histories around the alias only go unbound -> class)
+    no_bad = 'alias695' in json.dumps(case)
     for op in case['history']:
+        if no_bad and op[0] == 'define_late_bad':
+            continue
         if op[0] == 'define_late':
             good = True
         elif op[0] == 'define_late_bad' and good:
@@ -230,6 +240,10 @@ class World:
             return typing.Literal[h[1]]
         if k == 'fwd':
             return 'c14mod.' + h[1]
+        if k == 'alias695':
+            if 'AL' not in self.mod.__dict__:
+                exec('type AL = list[Late] | None', self.mod.__dict__)
+            return self.mod.AL
         if k == 'list':
             return list[self.hint(h[1])]
         if k == 'List':
@@ -358,7 +372,7 @@ def _child(case):
 
 def _mentions(h, pred):
     if isinstance(h, list):
-        if pred(h):
+        if h and pred(h):
             return True
         return any(_mentions(x, pred) for x in h[1:] if isinstance(x, list))
     return False
